@@ -198,7 +198,8 @@ impl TypedQuery {
 }
 
 /// every aggregate kind over every argument type it accepts: INT, REAL, INTERVAL for SUM/AVG; INT, REAL for
-/// STDDEV/VARIANCE (of intervals the model has no arithmetic: rarely, and then the case is skipped); any comparable
+/// STDDEV/VARIANCE (also of intervals, where the code squares the microseconds — an overflow error beyond ~50 min —
+/// and never publishes a value: compared with the model, nothing demanded by the reference); any comparable
 /// type for MIN/MAX/PERCENTILE/COUNT(DISTINCT)/COUNT/ARRAY_AGG; BOOLEAN for BOOL_AND/OR; TEXT for STRING_AGG
 fn gen_agg(rng: &mut Rng) -> AggK {
     match rng.below(18) {
@@ -209,7 +210,7 @@ fn gen_agg(rng: &mut Rng) -> AggK {
         7 | 8 => AggK::Min(*rng.pick(&[K, S, TS, B, V, R, IV, W])),
         9 | 10 => AggK::Max(*rng.pick(&[K, S, TS, B, W, R, IV, V])),
         11 => AggK::Avg(*rng.pick(&[V, W, R, IV, IV])),
-        12 => AggK::Stddev(*rng.pick(&[V, W, R, V, W, R, V, W, R, IV]), rng.chance(1, 2)),
+        12 => AggK::Stddev(*rng.pick(&[V, W, R, V, W, R, V, IV, IV, IV]), rng.chance(1, 2)),
         13 | 14 => AggK::Percentile(*rng.pick(&[V, K, R, TS, W, IV, S]), *rng.pick(&["0.0", "0.5", "0.99", "1.0"])),
         15 => if rng.chance(1, 2) { AggK::BoolAnd(B) } else { AggK::BoolOr(B) },
         16 => AggK::ArrayAgg(*rng.pick(&[V, K, TS, B, IV])),
